@@ -73,3 +73,53 @@ Lemma walker_panic_rows_reviewed :
      orb (negb (String.eqb p "walker")) (existsb (wkey_eqb (p, f, fn, "panic", arg)) (map fst walker_reviewed)) end)
     PanicGen.sites = true.
 Proof. vm_compute. reflexivity. Qed.
+
+(* ------------------------------------------------------------ the SourceNode paths of sourcewalk *)
+From J5V.gen Require SourcewalkGen.
+(* The front-end model computes an error's position from the PATH of the SourceNode it is reported on
+   (model/CmpbFront.v child_span); the harness feeds it the paths sourcewalk builds:
+     root object    elements.<i>.object.object[.def.properties.<j>]      (the `object` segment TWICE: file.go takes
+                    source.child("object") and then passes source.child("object") to newObjectNode — the second
+                    one does not exist in the location tree, which makes everything below a root object virtual)
+     root oneof     elements.<i>.oneof.oneof[.def.properties.<j>]
+     enum / service / topic / entity   elements.<i>.<kind>
+     service method elements.<i>.service.methods.<j>.request                (ServiceMethodNode.Source is the request node)
+     type reference <property>.schema[.array.items | .map.itemSchema].<kind>.ref
+   This lemma pins the child(...) calls those paths were read from, with their multiplicities: a repair of the
+   doubled segment, or a renamed segment, breaks it and says the paths of the harness must follow. *)
+Definition ckey := (string * string * list string)%type.
+Fixpoint strs_eqb (x y : list string) : bool :=
+  match x, y with
+  | [], [] => true
+  | a :: x', b :: y' => andb (String.eqb a b) (strs_eqb x' y')
+  | _, _ => false
+  end.
+Definition ckey_eqb (a b : ckey) : bool :=
+  match a, b with
+  | (f1, g1, l1), (f2, g2, l2) => andb (andb (String.eqb f1 f2) (String.eqb g1 g2)) (strs_eqb l1 l2)
+  end.
+Definition ccount (k : ckey) : nat := length (filter (ckey_eqb k) SourcewalkGen.child_calls).
+Definition path_calls_needed : list (ckey * nat) :=
+  [ (("file.go", "FileNode.RangeRootElements", ["elements"; "#"]), 1);
+    (("file.go", "FileNode.RangeRootElements", ["object"]), 2);
+    (("file.go", "FileNode.RangeRootElements", ["oneof"]), 2);
+    (("file.go", "FileNode.RangeRootElements", ["enum"]), 1);
+    (("file.go", "FileNode.RangeRootElements", ["entity"]), 1);
+    (("file.go", "FileNode.RangeRootElements", ["topic"]), 1);
+    (("file.go", "FileNode.RangeRootElements", ["service"]), 1);
+    (("schema.go", "newObjectNode", ["def"]), 1);
+    (("schema.go", "newOneofNode", ["def"]), 1);
+    (("schema.go", "mapProperties", ["#"; "..."]), 1);
+    (("schema.go", "mapProperties", ["#"]), 1);
+    (("property.go", "propertyNode.accept", ["schema"]), 1);
+    (("property.go", "buildFieldNode", ["array"; "items"]), 1);
+    (("property.go", "buildFieldNode", ["map"; "itemSchema"]), 1);
+    (("property.go", "replaceNestedObject", ["ref"]), 1);
+    (("property.go", "replaceNestedOneof", ["ref"]), 1);
+    (("property.go", "replaceNestedEnum", ["ref"]), 1);
+    (("service.go", "serviceBuilder.accept", ["methods"; "#"]), 1);
+    (("service.go", "serviceBuilder.accept", ["request"]), 2) ].
+Definition sourcewalk_paths_agree : bool :=
+  forallb (fun kn => Nat.eqb (ccount (fst kn)) (snd kn)) path_calls_needed.
+Lemma sourcewalk_paths_agree_holds : sourcewalk_paths_agree = true.
+Proof. vm_compute. reflexivity. Qed.
